@@ -86,6 +86,11 @@ class Compiler:
             raise CompilationError('subquery is not supported in this context', node)
         self.subquery = False
 
+        # The FROM clause sets the table the names in this statement are
+        # resolved against: restore the table of the enclosing statement
+        # when done.
+        table = self.table
+
         # Compile the FROM clause.
         c_from_expr = self._compile_from(node.from_clause)
 
@@ -145,6 +150,7 @@ class Compiler:
                           order_spec,
                           node.limit,
                           node.distinct)
+        self.table = table
 
         pivots = self._compile_pivot_by(node.pivot_by, c_targets, group_indexes)
         if pivots:
